@@ -36,6 +36,8 @@ ROUTE_DIMS = ("method", "path", "query", "body")          # dimensions whose mea
 # routes whose well-formed request by the administrator stops the server: those cases run last, on a server of their own
 STOPS = {"POST /services/admin/down/": "stops the server", "POST /services/cluster/shutdown": "stops the server (cluster token holders)"}
 REQ_TIMEOUT = 120
+SETUP_TIMEOUT = 900
+SLOW = 25                    # a connection that ends without a response after this many seconds counts as a timeout
 http.client._MAXLINE = 64 * 1024 * 1024          # a handler may echo a 1 MiB value into a response header (Location): still an answer
 http.client._MAXHEADERS = 10000
 
@@ -165,7 +167,7 @@ def crash_site(stack):
     # re-panic of reportRequestPanic comes first: the site follows the LAST panic frame)
     last = max([i for i, f in enumerate(funcs) if f == "panic" or f.startswith("runtime.gopanic")], default=-1)
     for f in funcs[last + 1:] if last >= 0 else []:
-        if "." not in f.split("/")[0]:          # runtime and standard-library frames (reflect, encoding/json, ...): not the culprit
+        if "/" not in f or "." not in f.split("/")[0]:     # runtime and standard-library frames (reflect.*, encoding/json.*, ...): not the culprit
             continue
         return re.sub(r"^github\.com/tucats/ego/(internal/)?", "", f)
     for f in funcs[last + 1:] if last >= 0 else []:
@@ -184,7 +186,10 @@ class Observer:
 
     def request(self, method, target, headers, body, timeout=REQ_TIMEOUT):
         t = self.t
+        t0 = time.time()
         responded, status, rh, data, timed_out = t.raw(method, target, headers, body, timeout)
+        if not responded and time.time() - t0 > SLOW:
+            timed_out = True            # the server's own read/write timeouts (30 s / 120 s) closed the connection: a timeout, not an answer
         alive = t.alive()
         if not responded and alive and not timed_out:
             time.sleep(0.05)
@@ -233,6 +238,7 @@ class Fixture:
         self.tok = {}
         self.restarts = 0
         self.setup_records = []
+        self.setup_timeouts = []
 
     def plant(self):
         items = {"ego.server.oauth.as.enabled": "true", "ego.server.oauth.as.issuer": self.issuer,
@@ -294,9 +300,14 @@ class Fixture:
             h.append(("Content-Type", "application/x-www-form-urlencoded"))
         for kv in headers or []:
             h.append(kv)
-        obs, info = self.ob.request(method, path, h, b)
+        # set-up requests get a very generous timeout: the first log-on of a user re-hashes the stored credential with bcrypt,
+        # which takes minutes when several servers start on a saturated machine
+        obs, info = self.ob.request(method, path, h, b, timeout=SETUP_TIMEOUT)
         if info["timeout"]:
-            raise vf.NoVerdict("no answer from the ego server within %ds (set-up request %s %s)" % (REQ_TIMEOUT, method, path))
+            self.setup_timeouts.append("%s %s" % (method, path))
+            if len(self.setup_timeouts) > 20:
+                raise vf.NoVerdict("the ego server does not answer set-up requests in time (machine too loaded?): %s" % self.setup_timeouts[-5:])
+            return None
         self.setup_records.append({"stage": "main", "route": "setup " + method + " " + path, "c": dict(BASE), "o": obs,
                                    "x": {"method": method, "target": path, "value": info["value"]}})
         return egosrv.Resp(obs["status"], info["headers"], info["body"].decode("utf8", "replace")) if obs["responded"] else None
@@ -346,7 +357,7 @@ class Fixture:
                     if t != "tvictim":
                         self.root("PUT", "/dsns/%s/tables/%s/rows" % (d, t), [{"id": 1, "name": "one"}, {"id": 2, "name": "two"}, {"id": 3, "name": "three"}])
                     self.root("GET", "/dsns/%s/tables/%s" % (d, t))      # the server caches a table's column metadata when it is first described
-            self.root("POST", "/dsns/@permissions", {"dsn": "d1", "user": "bob", "actions": ["+read"]})
+            self.root("POST", "/dsns/@permissions", {"dsn": "d1", "user": "bob", "actions": ["+ego.dsn.read"]})
             self.ensure_loggers()
 
     def ensure_loggers(self):
@@ -1275,7 +1286,7 @@ def run():
         hist, per_route = {}, {}
         for r, fx in zip(runners, fxs):
             records += r.records + fx.setup_records
-            timeouts += r.timeouts
+            timeouts += r.timeouts + [{"route": "setup " + t} for t in fx.setup_timeouts]
             retried += r.retried
             for k, v in r.status_hist.items():
                 hist[k] = hist.get(k, 0) + v
